@@ -342,7 +342,7 @@ func hasKind(s *sto.Spec, kind string) bool {
 
 func main() {
 	ev.Main("C01", "exploration",
-		"seeded operation histories (receive/fetch/subfetch/stat/enumerate/remove/reopen, 40-200 ops) over every backend and seeded compositions (incl. overlay/union below the root filled by a nested preload, replicas with a distinct read set holding hidden blobs in a write-only backend, sibling namespaces judged by a second reference map, re-creation of composite trees), each result compared with a reference map and a full audit every 8 ops; universes always hold the 0-byte blob and, in one history per backend / every second history of a tree containing cond, blobs above schema.MaxSchemaBlobSize+1 up to the 16 MiB cap; every tree that contains a blobpacked store also receives hand-written file schemas of >= 512 KiB whose parts are not what perkeep's own writer produces (parts shorter than the blob they name, the same chunk under two part sizes, over-long parts, offsets, sparse parts, short parts inside a nested bytes schema, a prefix of a blob another file or the random universe also uses; 14 variants rotated over directed trees with blobpacked at the root and below cond/replica/namespace/proxycache/overlay/shard/blobpacked), every blob involved staying under the same reference map; ranged fetches include the documented boundaries (offset == size, length 0, the empty blob, off+len beyond the blob and beyond int64) on every SubFetch-capable root; distinct = (backend spec, history hash); non-trivial = history contains >=1 remove or refusal, >=1 re-receive and >=3 enumerations",
+		"seeded operation histories (receive/fetch/subfetch/stat/enumerate/remove/reopen, 40-200 ops) over every backend and seeded compositions (incl. overlay/union below the root filled by a nested preload, replicas with a distinct read set holding hidden blobs in a write-only backend, sibling namespaces judged by a second reference map, re-creation of composite trees), each result compared with a reference map and a full audit every 8 ops; universes always hold the 0-byte blob and, in one history per backend / every second history of a tree containing cond, blobs above schema.MaxSchemaBlobSize+1 up to the 16 MiB cap; every tree that contains a blobpacked store also receives hand-written file schemas of >= 512 KiB whose parts are not what perkeep's own writer produces (parts shorter than the blob they name, the same chunk under two part sizes, over-long parts, offsets, sparse parts, short parts inside a nested bytes schema, a prefix of a blob another file or the random universe also uses; 14 variants rotated over directed trees with blobpacked at the root and below cond/replica/namespace/proxycache/overlay/shard/blobpacked), every blob involved staying under the same reference map; files that name one chunk several times with other chunks after the repeat (5 variants: A B A C, A A B C, runs of one short chunk, two repeated chunks, the repeat inside a nested bytes schema) are delivered alone to directed blobpacked trees, observed packed (a zip appears in the large store) and every blob of them is fetched and range-fetched afterwards; trees with a read-only union where a proxycache / overlay / cond writes refuse every receive and the refused blob is read back in every way at once (it stays absent); below proxycache, single receives fail in the only receiving leaf (before or after the leaf stored the blob) and the blob must then be consistently present or consistently absent for fetch, ranged fetch, stat and enumerate; ranged fetches include the documented boundaries (offset == size, length 0, the empty blob, off+len beyond the blob and beyond int64) on every SubFetch-capable root; distinct = (backend spec, history hash); non-trivial = history contains >=1 remove or refusal, >=1 re-receive and >=3 enumerations",
 		run)
 }
 
@@ -350,6 +350,7 @@ func run(r *ev.Run) {
 	log.SetOutput(io.Discard)
 	r.Assume("reference model = Go map from blobref to bytes, written from the property statement")
 	r.Assume("stores that document a refusal of remove/receive (encrypt, union, cond without remove) are modelled as refusing without state change")
+	r.Assume("a receive that returned an error because a lower store failed leaves the blob either present or absent (the first later read decides), and every later read agrees with that; a receive refused by a read-only store changes nothing")
 	r.Assume("blob.SubFetcher documents ErrOutOfRangeOffsetSubFetch only for an offset that goes over the blob's size: offset == size and length == 0 are valid empty ranges of a present blob")
 	root := ev.Scratch("c01")
 	defer os.RemoveAll(root)
